@@ -711,24 +711,8 @@ func TestCheck(t *testing.T) {
 	}
 	counts["pair_cases"] = len(cases)
 
-	// 2 + 3b: every truncation and single-byte substitution, right passphrase
-	n0 := len(cases)
-	if fixedCreated.ok {
-		cases = append(cases, corruptions("corrupt", "created", fixedCreated, "fixed", fixedPass, []string{"load", "export"}, thorough)...)
-	}
-	if created[0].ok { // modern file saved under the empty passphrase
-		cases = append(cases, corruptions("corrupt", "created", created[0], "empty", []byte{}, []string{"load"}, thorough)...)
-	}
-	if fixedLegacy.ok {
-		cases = append(cases, corruptions("corrupt", "legacy", fixedLegacy, "fixed", fixedPass, []string{"load", "export"}, thorough)...)
-	}
-	if legacy[0].ok { // only once the legacy derivation accepts the empty passphrase
-		cases = append(cases, corruptions("corrupt", "legacy", legacy[0], "empty", []byte{}, []string{"load"}, thorough)...)
-	}
-	counts["corruption_cases"] = len(cases) - n0
-
 	// 4: export → import → load
-	n0 = len(cases)
+	n0 := len(cases)
 	importPs := []pass{P[0], P[4]}
 	if thorough {
 		importPs = P
@@ -754,6 +738,22 @@ func TestCheck(t *testing.T) {
 		}
 	}
 	counts["roundtrip_cases"] = len(cases) - n0
+
+	// 2 + 3b: every truncation and single-byte substitution, right passphrase
+	n0 = len(cases)
+	if fixedCreated.ok {
+		cases = append(cases, corruptions("corrupt", "created", fixedCreated, "fixed", fixedPass, []string{"load", "export"}, thorough)...)
+	}
+	if created[0].ok { // modern file saved under the empty passphrase
+		cases = append(cases, corruptions("corrupt", "created", created[0], "empty", []byte{}, []string{"load"}, thorough)...)
+	}
+	if fixedLegacy.ok {
+		cases = append(cases, corruptions("corrupt", "legacy", fixedLegacy, "fixed", fixedPass, []string{"load", "export"}, thorough)...)
+	}
+	if legacy[0].ok { // only once the legacy derivation accepts the empty passphrase
+		cases = append(cases, corruptions("corrupt", "legacy", legacy[0], "empty", []byte{}, []string{"load"}, thorough)...)
+	}
+	counts["corruption_cases"] = len(cases) - n0
 
 	// run
 	deadline := time.Now().Add(vf.Pick(r, 75*time.Second, 17*time.Minute))
